@@ -178,7 +178,7 @@ func (h *Handler) Handle(req, resp dhcpv6.DHCPv6) (dhcpv6.DHCPv6, bool) {
 		// have already assigned to this client
 		for hintIdx, h := range hints {
 			if satisfied.Test(uint(hintIdx)) ||
-				(h.Prefix != nil && !h.Prefix.IP.Equal(net.IPv6zero)) {
+				(len(h.Prefix.IP) != 0 && !h.Prefix.IP.Equal(net.IPv6zero)) {
 				continue
 			}
 			for leaseIdx, l := range knownLeases {
